@@ -148,7 +148,11 @@ Definition out_matches (m : outputs) (o : out_obs) : bool :=
   | OTranslators ts, BTranslators names => strs_eqb (map fst ts) names
   | ORegexes e i, BRegexes l => strs_eqb (e ++ i) l || strs_eqb (i ++ e) l
   | OUsage, BUsage => true
-  | ORun ds r, BRun ds' r' => list_eqb dir_matches ds ds' && opt_eqb err_eqb r r'
+  | ORun ds r, BRun ds' r' =>
+      (* a directory whose parse_and_group call raised is part of the environment (it answers i_glob / i_groups) but
+         yields no directory record in the model: the run stops there *)
+      list_eqb dir_matches ds (filter (fun d => match db_groups d with Ok _ => true | Err _ => false end) ds')
+      && opt_eqb err_eqb r r'
   | _, _ => false
   end.
 
